@@ -173,6 +173,22 @@ macro_rules! expect_kind {
     };
 }
 
+/// Body of a single-range 206 before the first poll: the length-checking stream over exactly
+/// the entity's bytes a..b (what it then delivers is `exactlen_*` in body_h.rs).
+pub fn check_exact_initial(body: crate::body::Body<Chunk, HErr>, a: u64, b: u64) {
+    let hint = http_body::Body::size_hint(&body);
+    assert!(hint.lower() == b - a && hint.upper() == Some(b - a), "C01/C12: body of a 206 does not announce exactly the range length");
+    assert!(!http_body::Body::is_end_stream(&body), "C12: non-empty 206 body claims to be at its end before the first poll");
+    assert!(unsafe { CALLS } == 1 && unsafe { CALL_LOG[0] } == (a, b), "C02: entity asked for other bytes than Content-Range announces");
+    match body.0 {
+        crate::body::BodyStream::ExactLen(s) => std::mem::forget(s),
+        other => {
+            std::mem::forget(other);
+            assert!(false, "C01: 206 body is not the length-checked entity stream");
+        }
+    }
+}
+
 /// Body of a 200 / single-range 206 for GET: exactly entity bytes a..b, contiguous, in order.
 /// `polls` must be large enough for the script (K_EV + 2) plus the C20 extra polls.
 pub fn check_exact_body(body: crate::body::Body<Chunk, HErr>, a: u64, b: u64, polls: usize) {
@@ -516,7 +532,9 @@ pub fn serve_cfg(c: Cfg) {
         if c.method == M_HEAD {
             body_check!(c, resp, check_empty_body(resp));
         } else {
-            body_check!(c, resp, check_exact_body(resp, a, b, BODY_POLLS));
+            // (draining a 206 body inside this instance exhausts memory; the stream wrapper is
+            // verified for arbitrary inner streams in body_h.rs, here: what it was built from)
+            body_check!(c, resp, check_exact_initial(resp, a, b));
         }
         kani::cover!(b == d.len && a > 0, "range ending at the entity end");
         return;
@@ -804,6 +822,7 @@ prep_harness!(prep_unit_n2_h0, 2, true, 0);
 prep_harness!(prep_unit_n2_h1, 2, true, 1);
 prep_harness!(prep_unit_n2_h2, 2, true, 2);
 prep_harness!(prep_unit_n3_h1, 3, true, 1);
+prep_harness!(prep_unit_n3_noincl, 3, false, 0);
 
 macro_rules! serve_harness_nomulti {
     ($name:ident, $cfg:expr) => {
